@@ -90,7 +90,21 @@ def content_type_for(name):
 
 
 def kind_for_ct(ct):
-    return {"text/calendar": "ics", "text/vcard": "vcf"}.get(ct, "other")
+    # parameters (charset, component, version ...) do not change the media type (RFC 7231 3.1.1.1)
+    return {"text/calendar": "ics", "text/vcard": "vcf"}.get(ct.split(";")[0].strip().lower(), "other")
+
+
+# Content-Type spellings real clients send: the media type with zero, one or two parameters
+CT_PARAMS = {
+    "text/calendar": ["", "; charset=utf-8", ";charset=UTF-8", "; charset=utf-8; component=VEVENT",
+                      "; component=VEVENT; charset=utf-8", ";method=PUBLISH;charset=utf-8", " ; charset=utf-8", "!Text/Calendar", "!TEXT/CALENDAR; charset=utf-8"],
+    "text/vcard": ["", "; charset=utf-8", ";charset=UTF-8", "; charset=utf-8; version=4.0", "; version=3.0; charset=utf-8", " ;charset=utf-8", "!Text/VCard"],
+}
+
+
+def decorate_ct(rng, ct):
+    d = rng.choice(CT_PARAMS.get(ct, [""]))
+    return d[1:] if d.startswith("!") else ct + d     # "!" = a complete respelling (media types are case-insensitive)
 
 
 # XML request bodies ----------------------------------------------------------
